@@ -513,7 +513,10 @@ package trzsz
 //@     invariant [C16] 0 <= i && i <= len(buf)
 //@ end
 
+//@ # the stop flags as read by this call decide: no error only if neither flag was seen set
 //@ func trzszTransfer.checkStop pure
+//@   ensures [C10] r0 == nil ==> !result_of("atomic.Bool.Load", 0, 0) && !result_of("atomic.Bool.Load", 1, 0)
+//@   ensures [C10] result_of("atomic.Bool.Load", 0, 0) ==> r0 != nil
 //@ end
 
 //@ pure noHash(a []byte) bool = forall k int {a[k]} :: 0 <= k && k < len(a) ==> a[k] != 35
@@ -549,6 +552,9 @@ package trzsz
 //@   ensures tbWF(t.buffer)
 //@   ensures [C16] r1 == nil && !t.tunnelConnected && \
 //@       (windowsEnvironment || t.windowsProtocol || t.transferConfig.TmuxOutputJunk || mayHasJunk) ==> cutOK(r0)
+//@   # C10: once the stop flag was seen nothing more is taken from the stream
+//@   ensures [C10] result_of("trzszTransfer.checkStop", 0, 0) != nil ==> r1 != nil
+//@   ensures [C10] result_of("trzszTransfer.checkStop", 0, 0) != nil ==> recvd[t.buffer] == old(recvd)[t.buffer]
 //@ end
 
 //@ func trzszTransfer.recvCheck
@@ -1443,4 +1449,41 @@ package trzsz
 //@   ghostvar cleared bool = false
 //@   after atomic.Pointer.CompareAndSwap[github.com/trzsz/trzsz-go/trzsz.trzszTransfer] set cleared = (p0 == transfer && p1 == nil)
 //@   ensures [C05] cleared
+//@ end
+
+// ===========================================================================
+// C10 (continued)  the stop flag (transfer.go, pipeline.go)
+// ===========================================================================
+
+//@ # once the stop flag was seen nothing more is put on the wire
+//@ func trzszTransfer.sendData
+//@   ensures [C10] result_of("trzszTransfer.checkStop", 0, 0) != nil ==> r0 != nil && nothingSent()
+//@ end
+
+//@ # a pause ends in success only if the stop flags were clear when last looked at
+//@ func trzszTransfer.checkStopAndPause
+//@   ensures [C10] r0 == nil ==> result_of("trzszTransfer.checkStop", 0, 0) == nil || result_of("trzszTransfer.checkStop", 1, 0) == nil
+//@ end
+
+//@ # the first stop request wins: the delete choice is recorded only by the call whose compare-and-swap
+//@ # turned "stopped" on, and the blocked reader is woken after that
+//@ func trzszTransfer.stopTransferringFiles
+//@   before atomic.Bool.Store assert [C10] result_of("atomic.Bool.CompareAndSwap", 0, 0) && p0 == stopAndDelete
+//@   before trzszBuffer.stopBuffer assert [C10] result_of("atomic.Bool.CompareAndSwap", 0, 0)
+//@ end
+
+//@ func trzszError.isStopAndDelete pure
+//@   ensures [C10] r0 ==> e != nil
+//@ end
+
+//@ # files are deleted on the client only if stop-and-delete was chosen (as read by this call), and when
+//@ # something was deleted the peer is told with a fail line that names it
+//@ func trzszTransfer.clientError
+//@   before trzszTransfer.deleteCreatedFiles assert [C10] result_of("atomic.Bool.Load", 0, 0)
+//@   before trzszTransfer.sendString#1 assert [C10] len(result_of("trzszTransfer.deleteCreatedFiles", 0, 0)) > 0 && result_of("atomic.Bool.Load", 0, 0)
+//@ end
+
+//@ # files are deleted on the server only when the error is the peer's "Stopped and deleted"
+//@ func trzszTransfer.serverError
+//@   before trzszTransfer.deleteCreatedFiles assert [C10] result_of("trzszError.isStopAndDelete", 0, 0)
 //@ end
